@@ -13,7 +13,8 @@ RULE = ("harness-written trace string files (0..30 strings, duplicate and partia
         "entry, trailer off by +-1/+-4, truncation, garbage; declared size exact / larger / 0 / 31..33 / inside the buffer; "
         "every buffer is additionally truncated at every offset (thorough) or every 5th (quick).  Wrappers over every alias of "
         "parse_trace_data and over TraceStringFile.get_trace_string compare each call with trace_ref / find_string.  "
-        "Non-trivial: input >= 32 bytes; distinct = (string file, data).")
+        "String files carry near-miss lines (hash of a real string in digits of another script, signed, underscored, hex, "
+        "float) before the real line and at the end.  Non-trivial: input >= 32 bytes; distinct = (string file, data).")
 ASSUMPTIONS = ["an entry belongs to the buffer when it starts below the declared size (it may extend beyond it)",
                "Python's % operator is the formatting semantics", "dumps use the documented default hex-dump layout"]
 FILES = {}
